@@ -136,14 +136,20 @@ func runC14(r *Run, rng *rand.Rand, thorough bool) {
 		keys = append(keys, key{fx[(i+int(r.Seed))%len(fx)].PaillierSK, "vendored-2048"})
 	}
 	// freshly generated small keys (even modulus lengths), shape assertions
-	sizes := []int{18, 24, 32, 48, 64} // below 18 bits no two distinct safe primes with the two top bits set exist
+	// below 18 bits no two distinct safe primes with the two top bits set exist; 18..32 covers every residue of the
+	// prime length modulo 8 (the generator shapes its candidates byte-wise)
+	sizes := []int{18, 20, 22, 24, 26, 28, 30, 32, 48, 64}
 	gens := 3
 	if thorough {
-		sizes = []int{18, 20, 22, 24, 28, 32, 40, 48, 56, 64, 96, 128}
+		sizes = []int{18, 20, 22, 24, 26, 28, 30, 32, 34, 36, 40, 48, 52, 56, 64, 68, 96, 128}
 		gens = 10
 	}
 	for _, bits := range sizes {
-		for g := 0; g < gens; g++ {
+		ng := gens
+		if bits <= 32 && !thorough {
+			ng = 6
+		}
+		for g := 0; g < ng; g++ {
 			ctx, cancel := context.WithTimeout(context.Background(), 30*time.Second)
 			sk, pk, err := paillier.GenerateKeyPair(ctx, rand.New(rand.NewSource(rng.Int63())), bits, 4)
 			cancel()
